@@ -30,7 +30,7 @@ import (
 type C21Extra struct {
 	Pos  int    `json:"pos"`
 	Key  string `json:"key"`
-	Kind string `json:"kind"` // int | list | map | string | nested
+	Kind string `json:"kind"` // int | list | map | string | nested | ref | marked | node | edge | null | media
 	// KeyKind: "" = the string Key; otherwise a key that is not a string and so can name no field:
 	// int | negint | bool | uid | rid | time | bigint (distinct per extra through its index)
 	KeyKind string `json:"key_kind,omitempty"`
@@ -55,6 +55,7 @@ var c21Names = []string{"Name", "FirstName", "ID", "UserID", "HTTPServer", "Coun
 	// non-ASCII upper-case initials (single hump: the snake-case form is simply the lower-case form)
 	"Überschrift", "Ärger", "Ñandu", "Éclair"}
 var c21Awkward = []string{"A1B", "X_y", "Go2Go", "V2", "Under_Score"}
+var c21Digits = []string{"Sha256Sum", "Field2Name", "X9Y", "Base64Data", "A1B", "Go2Go", "V2", "Utf8"}
 var c21TagNames = []string{"alpha", "beta_gamma", "Delta", "epsilonZeta", "eta9", "THETA"}
 var c21FieldTypes = []*gen.TypeSpec{{K: "int"}, {K: "string"}, {K: "bool"}, {K: "slice", Elem: &gen.TypeSpec{K: "uint8"}}, {K: "float64"}, {K: "uint16"},
 	{K: "ptr", Elem: &gen.TypeSpec{K: "int16"}}, {K: "slice", Elem: &gen.TypeSpec{K: "string"}}, {K: "map", Key: &gen.TypeSpec{K: "string"}, Elem: &gen.TypeSpec{K: "int"}},
@@ -71,6 +72,9 @@ func genC21Struct(t *rapid.T, camel bool, depth int, used map[string]bool) *gen.
 		pool := c21Names
 		if camel && rapid.IntRange(0, 3).Draw(t, "awk") == 0 {
 			pool = c21Awkward
+		}
+		if rapid.IntRange(0, 5).Draw(t, "digits") == 0 {
+			pool = c21Digits // a digit directly in front of a capital letter is a word boundary too (both styles)
 		}
 		name := pool[rapid.IntRange(0, len(pool)-1).Draw(t, "fname")]
 		if used[identOf(name)] {
@@ -310,7 +314,7 @@ func init() {
 			}
 			for i, k := 0, rapid.IntRange(0, 2).Draw(t, "nextras"); i < k; i++ {
 				x := C21Extra{Pos: rapid.IntRange(0, 8).Draw(t, "xpos"), Key: fmt.Sprintf("zz_unknown_%d", i),
-					Kind: rapid.SampledFrom([]string{"int", "list", "map", "string", "nested"}).Draw(t, "xkind")}
+					Kind: rapid.SampledFrom([]string{"int", "list", "map", "string", "nested", "ref", "marked", "node", "null", "media"}).Draw(t, "xkind")} // no edge values: no builder consumes an edge's end event (open C04 finding)
 				if rapid.IntRange(0, 2).Draw(t, "xnonstring") == 0 {
 					x.KeyKind = rapid.SampledFrom([]string{"int", "negint", "bool", "uid", "rid", "time", "bigint"}).Draw(t, "xkeykind")
 					if x.KeyKind == "bool" && i > 0 {
@@ -417,6 +421,21 @@ func init() {
 					doc = append(doc, ev.Event{K: ev.List}, ev.Event{K: ev.Int, I: 1}, ev.Event{K: ev.Int, I: 2}, ev.Event{K: ev.End})
 				case "map":
 					doc = append(doc, ev.Event{K: ev.Map}, ev.Event{K: ev.StringArray, AT: events.ArrayTypeString, S: "k"}, ev.Event{K: ev.Null}, ev.Event{K: ev.End})
+				case "ref":
+					// two unknown keys: a marked value, then a reference to it
+					id := fmt.Sprintf("zzm%d", n)
+					doc = append(doc, ev.Event{K: ev.Marker, Bs: []byte(id)}, ev.Event{K: ev.StringArray, AT: events.ArrayTypeString, S: "ignored"},
+						ev.Event{K: ev.StringArray, AT: events.ArrayTypeString, S: x.Key + "_r"}, ev.Event{K: ev.RefLocal, Bs: []byte(id)})
+				case "marked":
+					doc = append(doc, ev.Event{K: ev.Marker, Bs: []byte(fmt.Sprintf("zzm%d", n))}, ev.Event{K: ev.List}, ev.Event{K: ev.Int, I: 1}, ev.Event{K: ev.End})
+				case "node":
+					doc = append(doc, ev.Event{K: ev.Node}, ev.Event{K: ev.Int, I: 1}, ev.Event{K: ev.Node}, ev.Event{K: ev.Int, I: 2}, ev.Event{K: ev.End}, ev.Event{K: ev.Int, I: 3}, ev.Event{K: ev.End})
+				case "edge":
+					doc = append(doc, ev.Event{K: ev.Edge}, ev.Event{K: ev.Int, I: 1}, ev.Event{K: ev.Int, I: 2}, ev.Event{K: ev.Int, I: 3}, ev.Event{K: ev.End})
+				case "null":
+					doc = append(doc, ev.Event{K: ev.Null})
+				case "media":
+					doc = append(doc, ev.Event{K: ev.Media, S: "a/b", Bs: []byte{1, 2, 3}})
 				default:
 					doc = append(doc, ev.Event{K: ev.List}, ev.Event{K: ev.Map}, ev.Event{K: ev.Int, I: 1}, ev.Event{K: ev.List}, ev.Event{K: ev.End}, ev.Event{K: ev.End}, ev.Event{K: ev.Array, AT: events.ArrayTypeUint8, U: 2, Bs: []byte{1, 2}}, ev.Event{K: ev.End})
 				}
